@@ -326,6 +326,17 @@ pub fn silence_panics() {
     }
 }
 
+/// The running binary itself (child-process entry points). `/proc/self/exe` keeps working when the
+/// file on disk has been replaced by a rebuild while this process runs.
+pub fn self_exe() -> std::path::PathBuf {
+    let p = std::path::PathBuf::from("/proc/self/exe");
+    if p.exists() {
+        p
+    } else {
+        std::env::current_exe().expect("current_exe")
+    }
+}
+
 pub fn panic_message(p: &Box<dyn std::any::Any + Send>) -> String {
     if let Some(s) = p.downcast_ref::<String>() {
         s.clone()
